@@ -417,6 +417,9 @@ class IMAPConnection:
                             self._print('%s <->| <TLS failure: %s>',
                                         exc.reason)
                             return
+                    # FETCH values refer to the selected mailbox, which must
+                    # not outlive its de-selection while waiting for input
+                    del response
                 finally:
                     await state.do_cleanup()
                     current_command.reset(prev_cmd)
